@@ -1,6 +1,9 @@
 package codegen
 
-import "github.com/HobbyOSs/gosk/pkg/ocode"
+import (
+	"github.com/HobbyOSs/gosk/pkg/cpu"
+	"github.com/HobbyOSs/gosk/pkg/ocode"
+)
 
 var opcodeMap = map[ocode.OcodeKind]byte{
 	ocode.OpAAA:      0x37,
@@ -149,10 +152,69 @@ var opcodeMap = map[ocode.OcodeKind]byte{
 	ocode.OpXSETBV:   0x01,
 }
 
+// noParamExtra は opcodeMap の 1 バイトだけでは表せない命令の追加情報:
+// 0F エスケープ、後続の即値バイト、ニーモニックが固定するオペランドサイズ
+// (モードのサイズと異なるとき 66h プレフィックスが必要)。
+type noParamExtraInfo struct {
+	escape0F bool
+	suffix   []byte
+	opSize   int // 0: モードに従う / サイズなし, 16, 32
+}
+
+var noParamExtra = map[ocode.OcodeKind]noParamExtraInfo{
+	ocode.OpCPUID:  {escape0F: true},
+	ocode.OpCLTS:   {escape0F: true},
+	ocode.OpINVD:   {escape0F: true},
+	ocode.OpWBINVD: {escape0F: true},
+	ocode.OpRDMSR:  {escape0F: true},
+	ocode.OpWRMSR:  {escape0F: true},
+	ocode.OpRDPMC:  {escape0F: true},
+	ocode.OpRDTSC:  {escape0F: true},
+	ocode.OpRSM:    {escape0F: true},
+	ocode.OpUD2:    {escape0F: true},
+	ocode.OpAAD:    {suffix: []byte{0x0A}},
+	ocode.OpAAM:    {suffix: []byte{0x0A}},
+	ocode.OpCBW:    {opSize: 16},
+	ocode.OpCWD:    {opSize: 16},
+	ocode.OpCWDE:   {opSize: 32},
+	ocode.OpCDQ:    {opSize: 32},
+	ocode.OpPUSHAD: {opSize: 32},
+	ocode.OpPOPAD:  {opSize: 32},
+	ocode.OpPUSHFD: {opSize: 32},
+	ocode.OpPOPFD:  {opSize: 32},
+	ocode.OpIRETD:  {opSize: 32},
+}
+
+// GenerateX86NoParam は opcodeMap の 1 バイトをそのまま返す (表の参照用)。
+// 実際のコード生成は GenerateX86NoParamMode を使う。
 func GenerateX86NoParam(ocode ocode.Ocode) []byte {
 	var binary []byte
 	if code, exists := opcodeMap[ocode.Kind]; exists {
 		binary = append(binary, code)
 	}
 	return binary
+}
+
+// GenerateX86NoParamMode はオペランドなし命令の機械語をビットモードに応じて生成する。
+func GenerateX86NoParamMode(oc ocode.Ocode, bitMode cpu.BitMode) []byte {
+	var binary []byte
+	code, exists := opcodeMap[oc.Kind]
+	if !exists {
+		return binary
+	}
+	extra := noParamExtra[oc.Kind]
+	if (extra.opSize == 16 && bitMode != cpu.MODE_16BIT) || (extra.opSize == 32 && bitMode == cpu.MODE_16BIT) {
+		binary = append(binary, 0x66)
+	}
+	if extra.escape0F {
+		binary = append(binary, 0x0F)
+	}
+	binary = append(binary, code)
+	binary = append(binary, extra.suffix...)
+	return binary
+}
+
+// NoParamSize は pass 1 用: オペランドなし命令が占めるバイト数を返す。
+func NoParamSize(kind ocode.OcodeKind, bitMode cpu.BitMode) int {
+	return len(GenerateX86NoParamMode(ocode.Ocode{Kind: kind}, bitMode))
 }
